@@ -91,7 +91,8 @@ def run(chk):
         r = analyse(chk, q, build)
         c = "eqsig/stockwell.py:" + name
         unmodelled_in(r, chk, "R-ST-AXIS", c)
-        am = [e for e in r.events("lib-call", q) if e.name == "numpy.argmax"]
+        inmod = lambda e: e.fn.startswith(ST)         # the helper may delegate to its sibling in the same module
+        am = [e for e in r.events("lib-call") if inmod(e) and e.name == "numpy.argmax"]
         if len(am) != 1:
             chk.ob("R-ST-AXIS", c, "one argmax", False, derived="%d" % len(am), loc=r.fi.loc())
             continue
@@ -100,20 +101,29 @@ def run(chk):
         chk.ob("R-ST-AXIS", c + "{argmax}", "argmax(abs(.), axis=0): amplitude before ordering, over the frequency axis", a0.dtype == "real" and "abs" in a0.tags and
                is_nonneg(a0.sign) and axv is not None and axv.has_const() and axv.const == 0, derived="dtype %s, abs: %s, axis=%s" % (
                    a0.dtype, "abs" in a0.tags, axv.const if (axv is not None and axv.has_const()) else None), loc=am[0].loc)
-        tk = [e for e in r.events("lib-call", q) if e.name == "numpy.take"]
-        okt = len(tk) == 1 and "flip" in tk[0].args[0].tags and "red:argmax" in tk[0].args[1].tags and alg_degree(tk[0].args[0].a(DT)) == Exp(-1)
+        # selection of the frequencies by the argmax: np.take(freqs, idx) or freqs[idx]
+        tk = [(e.args[0], e.args[1], e.loc) for e in r.events("lib-call") if inmod(e) and e.name == "numpy.take"] + \
+             [(e.base, e.index, e.loc) for e in r.events("subscript") if inmod(e) and e.index.kind == K_ARRAY and "red:argmax" in e.index.tags and
+              e.index.dtype == "int"]
+        okt = len(tk) == 1 and "flip" in tk[0][0].tags and "red:argmax" in tk[0][1].tags and alg_degree(tk[0][0].a(DT)) == Exp(-1)
         chk.ob("R-ST-AXIS", c + "{frequency axis}", "frequencies (degree -1 in dt) flipped like the rows, indexed by the argmax", okt,
-               derived="%d take(s)" % len(tk), loc=tk[0].loc if tk else r.fi.loc())
+               derived="%d selection(s) by the argmax" % len(tk), loc=tk[0][2] if tk else r.fi.loc())
         # the frequency axis itself: arange(1, points+1) / (2 * points * dt), points = number of rows
         from ..poly import Normaliser
-        fdef = [n for n in ast.walk(r.fi.node) if isinstance(n, ast.Assign) and isinstance(n.targets[0], ast.Name) and n.targets[0].id == "freqs"
-                and isinstance(n.value, ast.BinOp)]
+        scopes = [r.fi] + [chk.P.fn(e.callee) for e in r.events("call") if e.fn == q and e.callee.startswith(ST) and e.callee in chk.P.functions]
+
+        def unflip(v):
+            while isinstance(v, ast.Call) and ast.unparse(v.func) in ("np.flip", "np.flipud", "numpy.flip", "numpy.flipud") and v.args:
+                v = v.args[0]
+            return v
+        fdef = [n for sc in scopes for n in ast.walk(sc.node) if isinstance(n, ast.Assign) and isinstance(n.targets[0], ast.Name) and
+                isinstance(unflip(n.value), ast.BinOp) and "arange" in ast.unparse(n.value)]
         form = None
         if len(fdef) == 1:
-            form = Normaliser().poly(fdef[0].value).subst_atoms(lambda a: "dt" if a.endswith(".dt") or a == "dt" else a).canon()
+            form = Normaliser().poly(unflip(fdef[0].value)).subst_atoms(lambda a: "dt" if a.endswith(".dt") or a == "dt" else a).canon()
         chk.ob("R-ST-AXIS", c + "{axis form}", "frequencies = arange(1, points + 1) / (2 * points * dt)", form == "1/2*dt^-1*np.arange(1, 1 + 1*points)*points^-1",
                derived="%s" % form, loc=r.fi.loc(fdef[0]) if fdef else r.fi.loc())
-        pts = [n for n in ast.walk(r.fi.node) if isinstance(n, ast.Assign) and isinstance(n.targets[0], ast.Name) and n.targets[0].id == "points"]
+        pts = [n for sc in scopes for n in ast.walk(sc.node) if isinstance(n, ast.Assign) and isinstance(n.targets[0], ast.Name) and n.targets[0].id == "points"]
         chk.ob("R-ST-AXIS", c + "{points}", "points is the number of rows of the transform", len(pts) == 1 and isinstance(pts[0].value, ast.Call) and
                ast.unparse(pts[0].value.func) == "len", derived="%s" % (ast.unparse(pts[0].value) if pts else None), loc=r.fi.loc())
         summ[name] = (a0.dtype, "abs" in a0.tags, axv.const if (axv is not None and axv.has_const()) else None, okt, form)
@@ -187,7 +197,7 @@ def gauss_rule(chk):
     got = norm.poly(ast.fix_missing_locations(_T().visit(copy.deepcopy(rets[0].value)))).canon()
     ref_txt = GAUSS_REF[0].replace("H", "(" + GAUSS_REF[1] + ")")
     want = Normaliser().poly(ast.parse(ref_txt, mode="eval").body).canon()
-    for a, b in (("np.flip(", "np.flipud("), (".T", ".transpose()"), ("numpy.", "np."), ("math.pi", "pi")):
+    for a, b in (("numpy.", "np."), ("math.pi", "pi")):
         got = got.replace(a, b)
     skel = lambda t: re.findall(r"[A-Za-z_][\w\.]*", t)     # the sequence of names and calls; constants and operators dropped
     if got == want:
